@@ -73,6 +73,21 @@ Theorem C11_coalesce_skip_null :
     eval (S f) s c (ECoalesce (a :: rest)) = eval (S f) s1 c (ECoalesce rest).
 Proof. exact coalesce_skip_null. Qed.
 
+(* Per-element lambdas run once per element CONSUMED: draining  src.select(tick(id, $))  logs id exactly once per
+   element of src (for a source of ANY length) and yields the elements; asking only for the first result applies the
+   lambda exactly ONCE, however long the source is. *)
+Theorem C11_per_element_select :
+  forall f cap id src s,
+    exists h', force (eval (S (S f))) s src [LMap (tick_body id) cap]
+               = ({| heap := heap s ++ h'; log := log s ++ repeat id (length src) |}, Ok src).
+Proof. intros. apply force_select_ticks. Qed.
+
+Theorem C11_first_consumes_one :
+  forall f cap id x src s,
+    exists h', force_first (eval (S (S f))) s (x :: src) [LMap (tick_body id) cap]
+               = ({| heap := heap s ++ h'; log := log s ++ [id] |}, Ok (Some x)).
+Proof. intros. apply force_first_select_ticks. Qed.
+
 (* non-vacuity / the per-element rule on a concrete lazy pipeline:
    [1,2,3].select(tick(1,$)).where(tick(2,$ > 1)).first() consumes element 1 (ticks 1,2), then
    element 2 (ticks 1,2) and stops: element 3 is never touched. *)
